@@ -27,6 +27,17 @@ def tags(rs: list[list[dict]]) -> list[str]:
                 t.add("xroutine")
             if o["tgt"] == o["off"]:
                 t.add("selftarget")
+            if is_test(name) and o["tgt"] in pos:
+                # a test whose target leads back to the test itself through Jump ops only
+                cur, n = o["tgt"], 0
+                while cur in pos and n < 50:
+                    q = rs[pos[cur][0]][pos[cur][1]]
+                    if q["op"] != "Jump":
+                        break
+                    cur = q["tgt"]
+                    n += 1
+                if cur == o["off"]:
+                    t.add("selftarget")
             if name == "Jump" and i > 0 and o["tgt"] == r[i - 1]["off"] and is_test(r[i - 1]["op"]):
                 t.add("spin")
             if name == "BranchValue" and len(o["ps"]) > 1 and o["ps"][1] == "i:2":
@@ -57,6 +68,26 @@ def tags(rs: list[list[dict]]) -> list[str]:
                     return off
                 if resolve(o["tgt"]) <= o["off"] and resolve(r[i + 1]["tgt"]) <= o["off"]:
                     t.add("twoback")
+            if is_test(name) and o["tgt"] in pos:
+                # both successors lead backwards, the fall-through one after some plain ops
+                k = i + 1
+                while k < len(r) and not is_test(r[k]["op"]) and r[k]["op"] not in ("Jump", "Call", "Return", "End", "Hold"):
+                    k += 1
+                if k < len(r) and r[k]["op"] == "Jump":
+                    cur, n = r[k]["tgt"], 0
+                    while cur in pos and rs[pos[cur][0]][pos[cur][1]]["op"] == "Jump" and n < 50:
+                        cur = rs[pos[cur][0]][pos[cur][1]]["tgt"]
+                        n += 1
+                    c2, n = o["tgt"], 0
+                    while c2 in pos and rs[pos[c2][0]][pos[c2][1]]["op"] == "Jump" and n < 50:
+                        c2 = rs[pos[c2][0]][pos[c2][1]]["tgt"]
+                        n += 1
+                    if cur <= o["off"] and c2 <= o["off"]:
+                        t.add("twoback")
+            if o["tgt"] in pos and not name.startswith("Case"):
+                q = rs[pos[o["tgt"]][0]][pos[o["tgt"]][1]]
+                if q["op"].startswith("Case") and q["op"] != "CaseText":
+                    t.add("orphancase")   # a case op entered by a jump instead of from its switch header
     return sorted(t)
 
 
